@@ -58,11 +58,14 @@ def tree_key():
         files.append(os.path.join(REPO, f))
     files.append(os.path.join(VERIF, 'driver', 'target', 'release', 'mirdump'))
     files.append(os.path.join(VERIF, 'extract.sh'))
-    for root, dirs, fs in os.walk(os.path.join(VERIF, 'sda')):
-        for f in fs:
-            if f.endswith('.py'):
-                files.append(os.path.join(root, f))
     return _hash_files(files).hexdigest()[:24]
+
+
+E1_SOURCES = ['lin.py', 'values.py', 'facts.py', 'interp.py', 'models.py', 'spec.py', 'contracts.py', 'analyze.py', 'pp.py']
+
+
+def e1_key():
+    return _hash_files([os.path.join(VERIF, 'sda', f) for f in E1_SOURCES]).hexdigest()[:12]
 
 
 def prune_old(keep):
@@ -88,7 +91,7 @@ def ensure(cfg='full', need_e1=True, log=sys.stderr):
     prune_old(key)
     feats, da = CONFIGS[cfg]
     facts = os.path.join(d, f'facts-{cfg}.json')
-    e1 = os.path.join(d, f'e1-{cfg}.json')
+    e1 = os.path.join(d, f'e1-{cfg}-{e1_key()}.json')
     lock = open(os.path.join(d, f'.lock-{cfg}'), 'w')
     fcntl.flock(lock, fcntl.LOCK_EX)
     try:
